@@ -472,8 +472,30 @@ def load_known():
     return [k for k in json.load(open(p)).get('findings', []) if 'match' in k] if os.path.exists(p) else []
 
 
-def kf_match(kf, prop, flag, name, fin):
+def sig_zip_reorder(lines):
+    """the delivered tuples are exactly the expected ones, only in another order"""
+    ev = [json.loads(x) for x in lines]
+    d = [e['v'] for e in ev if e['ev'] == 'cbstart' and e['k'] == 'n']
+    per = {}
+    for e in ev:
+        if e['ev'] == 'emitcall' and e['k'] == 'n':
+            per.setdefault(e['src'], []).append(e['v'] % 10)
+    if not per:
+        return False
+    n = min(len(v) for v in per.values())
+    exp = []
+    for i in range(n):
+        x = 1
+        for s_ in sorted(per):
+            x = x * 10 + per[s_][i]
+        exp.append(x)
+    return sorted(d) == sorted(exp) and d != exp
+
+
+def kf_match(kf, prop, flag, name, fin, lines=None):
     m = kf['match']
+    if m.get('signature') == 'zip_reorder' and not (lines and sig_zip_reorder(lines)):
+        return False
     if kf['property'] != prop or m.get('kind') != 'conc':
         return False
     if 'flag' in m and m['flag'] != flag:
@@ -518,7 +540,7 @@ def run_conc_check(prop, tier, flags, seed, design_ref, models=(), extra_cases=N
                 n_valid += 1
                 for flag in flags:
                     if v['rej'].get(flag) == 'bad':
-                        hit = next((kf for kf in known if kf_match(kf, prop, flag, v['name'], v['fin'])), None)
+                        hit = next((kf for kf in known if kf_match(kf, prop, flag, v['name'], v['fin'], ts[tid])), None)
                         if hit:
                             e = kf_hits.setdefault(hit['id'], [0, hit, None])
                             e[0] += 1
